@@ -11,6 +11,7 @@ use simplicity::{types, CommitNode, FailEntropy};
 use simplicity::{Cmr, ConstructNode as WitnessNode};
 
 use crate::str::WitnessName;
+use crate::types::StructuralType;
 use crate::value::StructuralValue;
 use crate::witness::WitnessValues;
 
@@ -132,7 +133,7 @@ pub fn to_witness_node(node: &ConstructNode, values: WitnessValues) -> Arc<Witne
 
         fn convert_data(
             &mut self,
-            _: &PostOrderIterItem<&Node<Construct<J>>>,
+            data: &PostOrderIterItem<&Node<Construct<J>>>,
             inner: Inner<
                 &Arc<WitnessNode<J>>,
                 J,
@@ -144,7 +145,19 @@ pub fn to_witness_node(node: &ConstructNode, values: WitnessValues) -> Arc<Witne
                 .map(Arc::as_ref)
                 .map(WitnessNode::<J>::cached_data)
                 .map_witness(Option::<simplicity::Value>::clone);
-            Ok(WitnessData::from_inner(&self.inference_context, inner).unwrap())
+            let converted = WitnessData::from_inner(&self.inference_context, inner).unwrap();
+            // The arrows are rebuilt in a fresh inference context, which knows nothing about the
+            // declared witness types. Impose the type of the assigned value on its witness node,
+            // so that the node is never inferred to be smaller than the value it carries.
+            if let Inner::Witness(name) = data.node.inner() {
+                if let Some(value) = self.values.get(name) {
+                    let ty = StructuralType::from(value.ty()).to_unfinalized(&self.inference_context);
+                    self.inference_context
+                        .unify(&converted.arrow().target, &ty, "witness value type")
+                        .expect("witness values are consistent with the declared witness types");
+                }
+            }
+            Ok(converted)
         }
     }
 
